@@ -681,3 +681,136 @@ func init() {
 	registry["C04"].Meta.Rules["C04.11"] = "a write of element bytes stays inside the dataset: WriteAtAddress at the dataset's data address and writeChunkedData are reached only after the byte count was compared for equality with the dataset's dataSize and a mismatch returned an error (a buffer that is merely not shorter runs past the dataset into the objects allocated behind it) (shared with C01.3)"
 	registry["C04"].Rules = append(registry["C04"].Rules, func(c *Ctx, r *Result) { sizeDisciplineRule(c, r, "C04.11") })
 }
+
+// ---- a record that ends exactly at the end of its block is accepted (C06.10) ----
+//
+// In a loop `for cur < end` the state cur == end is the regular end: everything was consumed. A test inside the loop that
+// compares the cursor advanced by the size of the next record with the same bound therefore has to let cur + size == end
+// pass; written with >= it refuses the record that ends flush with the block, without an error (the loop just ends), and
+// whatever that record was - the last message of an object header - is missing from the result.
+func exactFitRule(c *Ctx, r *Result, rule string, floor int) {
+	readers := c.readerSet(r)
+	var fns []*ssa.Function
+	for f := range readers {
+		fns = append(fns, f)
+	}
+	sort.Slice(fns, func(i, j int) bool { return c.Name(fns[i]) < c.Name(fns[j]) })
+	n := 0
+	for _, fn := range fns {
+		if fn.Blocks == nil {
+			continue
+		}
+		k := 0
+		for _, h := range fn.Blocks {
+			ifi, ok := h.Instrs[len(h.Instrs)-1].(*ssa.If)
+			if !ok {
+				continue
+			}
+			isHeader := false
+			for _, p := range h.Preds {
+				if h.Dominates(p) {
+					isHeader = true
+				}
+			}
+			if !isHeader {
+				continue
+			}
+			cmp, ok := ifi.Cond.(*ssa.BinOp)
+			if !ok {
+				continue
+			}
+			var cur *ssa.Phi
+			var bound ssa.Value
+			switch cmp.Op {
+			case token.LSS:
+				cur, _ = cmp.X.(*ssa.Phi)
+				bound = cmp.Y
+			case token.GTR:
+				cur, _ = cmp.Y.(*ssa.Phi)
+				bound = cmp.X
+			}
+			if cur == nil || cur.Block() != h {
+				continue
+			}
+			loop := naturalLoop(h)
+			for _, b := range fn.Blocks {
+				if !loop[b] || b == h {
+					continue
+				}
+				if2, ok := b.Instrs[len(b.Instrs)-1].(*ssa.If)
+				if !ok {
+					continue
+				}
+				c2, ok := if2.Cond.(*ssa.BinOp)
+				if !ok {
+					continue
+				}
+				// normalise to  lhs OP bound
+				lhs, op := c2.X, c2.Op
+				if c2.X == bound {
+					lhs = c2.Y
+					switch c2.Op {
+					case token.LSS:
+						op = token.GTR
+					case token.LEQ:
+						op = token.GEQ
+					case token.GTR:
+						op = token.LSS
+					case token.GEQ:
+						op = token.LEQ
+					}
+				} else if c2.Y != bound {
+					continue
+				}
+				if op != token.GTR && op != token.GEQ {
+					continue
+				}
+				// lhs = cur + something
+				add, isAdd := lhs.(*ssa.BinOp)
+				if !isAdd || add.Op != token.ADD || !dependsOnValue(lhs, cur, 0) {
+					continue
+				}
+				// a position that is read next (index, slice start, read offset) is a start, not the end of a record:
+				// for a start, pos >= bound is the right test
+				isStart := false
+				if refs := lhs.Referrers(); refs != nil {
+					for _, ref := range *refs {
+						switch u := ref.(type) {
+						case *ssa.IndexAddr:
+							isStart = isStart || u.Index == lhs
+						case *ssa.Index:
+							isStart = isStart || u.Index == lhs
+						case *ssa.Lookup:
+							isStart = isStart || u.Index == lhs
+						case *ssa.Slice:
+							isStart = isStart || u.Low == lhs
+						case *ssa.Convert:
+							if r2 := u.Referrers(); r2 != nil {
+								for _, x := range *r2 {
+									if _, isCall := x.(ssa.CallInstruction); isCall {
+										isStart = true
+									}
+								}
+							}
+						}
+					}
+				}
+				if isStart {
+					continue
+				}
+				n++
+				k++
+				cons := fmt.Sprintf("%s#record-fit-test-%d", c.Name(fn), k)
+				r.Check(op == token.GTR, rule, cons, c.InstrPos(c2), "the loop runs while the cursor is below the bound, so cursor + size == bound is a record that ends exactly at the end of the block: the test lets it pass (>); with >= the last record of a full block is dropped without an error")
+			}
+		}
+	}
+	if n < floor {
+		r.Shortfall(c, rule, fmt.Sprintf("%s: only %d record-fit tests found in cursor loops (expected >= %d)", rule, n, floor))
+	}
+}
+
+func init() {
+	registry["C06"].Meta.Rules["C06.10"] = "a record that ends exactly at the end of its block is read: in a reader loop `for cur < end`, a test of cur + size against the same bound lets equality pass (>), because cur == end is the loop's own regular end state; with >= the last record of a completely filled block (the last message of a version 1 object header) is dropped silently"
+	registry["C06"].Rules = append(registry["C06"].Rules, func(c *Ctx, r *Result) { exactFitRule(c, r, "C06.10", 2) })
+}
